@@ -106,7 +106,7 @@ impl ValueSetT for ValueSetDateTime {
 
     fn lessthan(&self, pv: &PartialValue) -> bool {
         match pv {
-            PartialValue::DateTime(u) => self.set.iter().all(|set_value| set_value < u),
+            PartialValue::DateTime(u) => self.set.iter().any(|set_value| set_value < u),
             _ => false,
         }
     }
